@@ -142,17 +142,52 @@ func goid() string {
 }
 
 // hangSite finds the innermost cog frame of goroutine g in a dump of all goroutines.
+// hangSite names where goroutine g is stuck. One stack sample is not enough:
+// the innermost frame of a spinning loop is whatever the loop happened to be
+// calling. Several samples are taken; the frames they all share (from the
+// outermost one) lead to the function that holds the loop: its innermost
+// shared, non-helper cog frame is the site.
 func hangSite(g string) string {
-	buf := make([]byte, 8<<20)
-	buf = buf[:runtime.Stack(buf, true)]
-	for _, block := range strings.Split(string(buf), "\n\n") {
-		if !strings.HasPrefix(block, "goroutine "+g+" ") {
-			continue
+	sample := func() []string {
+		buf := make([]byte, 8<<20)
+		buf = buf[:runtime.Stack(buf, true)]
+		for _, block := range strings.Split(string(buf), "\n\n") {
+			if strings.HasPrefix(block, "goroutine "+g+" ") {
+				fr := cogFrames(block, false) // innermost first
+				for i, j := 0, len(fr)-1; i < j; i, j = i+1, j-1 {
+					fr[i], fr[j] = fr[j], fr[i]
+				}
+				return fr // outermost first
+			}
 		}
-		return siteOf(cogFrames(block, false))
+		return nil
+	}
+	common := sample()
+	for i := 0; i < 6; i++ {
+		time.Sleep(120 * time.Millisecond)
+		next := sample()
+		n := 0
+		for n < len(common) && n < len(next) && common[n] == next[n] {
+			n++
+		}
+		common = common[:n]
+	}
+	// lookups (Locate*, Has*, Get*) are where a loop over references spends
+	// its time, not where it is
+	for i := len(common) - 1; i >= 0; i-- {
+		if !helperFrames.MatchString(common[i]) && !lookupFrames.MatchString(common[i]) {
+			return common[i]
+		}
+	}
+	for i := len(common) - 1; i >= 0; i-- {
+		if !helperFrames.MatchString(common[i]) {
+			return common[i]
+		}
 	}
 	return "?"
 }
+
+var lookupFrames = regexp.MustCompile(`\.(Locate|Has|Get)[A-Za-z]*$`)
 
 // Frames that are generic accessors/helpers: a crash inside them is a defect of
 // the caller that used them without checking (ast.Type.AsStruct on a non-struct,
